@@ -20,6 +20,9 @@ field count (replayed by the driver as `timeout`).
 -/
 import KafkaVerif.Model.Codec
 import KafkaVerif.Gen.DecoderCfg
+import KafkaVerif.Lemmas.RecordScanSafe
+import KafkaVerif.Model.CodecRecords
+import KafkaVerif.Gen.RecordCfg
 
 namespace KV.C20
 open KV KV.Wire KV.Codec
@@ -282,6 +285,98 @@ theorem source_decoder_is_bounded : Gen.decoderCfg.bounded = true := by decide
 theorem readResponse_total_source (flex : Bool) (t : Ty) (stream : Bytes) :
     Safe (readResponse Gen.decoderCfg flex t stream) :=
   readResponse_total_bounded _ source_decoder_is_bounded (fun h hh => by simp [Gen.decoderCfg] at hh) flex t stream
+
+/-! ### record sets: `RecordSet.ReadFrom`, `readFromVersion1`, `readFromVersion2` inside the frame decoder -/
+
+theorem recsHandler_safe (rc : KV.RecordScan.RCfg) (hg : rc.allGuards = true) (crcI crcC : Bytes → Nat)
+    (dcmp : Int → Bytes → Option Bytes) (d : Dec) : Safe (recsHandler rc crcI crcC dcmp d) := by
+  have h := KV.RecordScan.readSet_safe rc hg crcI crcC dcmp d.inp d.remain
+  have hr : rc.readGuard = true := by
+    simp only [KV.RecordScan.RCfg.allGuards, Bool.and_eq_true] at hg
+    exact hg.1.1.1.1.1.2
+  unfold recsHandler
+  split
+  · split <;> simp [hr, Safe]
+  · simp [Safe]
+  · rename_i heq; rw [heq] at h; exact h
+  · rename_i heq; rw [heq] at h; exact h
+
+/-- **C20 including record-batch and message lengths.**  For every response schema, every byte stream, every CRC
+and decompression function: `ReadResponse` with the record-set reader whose guards are all present returns a
+message or an error — the frame size, every reflective length/count, the record-set size, message sizes, key and
+value lengths of v0/v1 messages, `batchLength`, `numRecords`, and every record / key / value / header varint of v2
+batches cannot make it panic or allocate beyond the bytes that hold the data. -/
+theorem readResponse_total_with_records (cfg : Cfg) (hb : cfg.bounded = true) (rc : KV.RecordScan.RCfg)
+    (hg : rc.allGuards = true) (crcI crcC : Bytes → Nat) (dcmp : Int → Bytes → Option Bytes)
+    (flex : Bool) (t : Ty) (stream : Bytes) :
+    Safe (readResponse (withRecords cfg rc crcI crcC dcmp) flex t stream) :=
+  readResponse_total_bounded (withRecords cfg rc crcI crcC dcmp) (by simpa [withRecords] using hb)
+    (fun h hh => by
+      have : h = recsHandler rc crcI crcC dcmp := by
+        simp only [withRecords] at hh
+        exact (Option.some.inj hh).symm
+      subst this
+      exact recsHandler_safe rc hg crcI crcC dcmp) flex t stream
+
+/-- the guards of the CURRENT source tree are all present (facts re-extracted on every run) -/
+theorem source_record_guards : Gen.recordCfg.allGuards = true := by decide
+
+/-- C20 (with record sets) for the code as it is now -/
+theorem readResponse_total_source_with_records (crcI crcC : Bytes → Nat) (dcmp : Int → Bytes → Option Bytes)
+    (flex : Bool) (t : Ty) (stream : Bytes) :
+    Safe (readResponse (withRecords Gen.decoderCfg Gen.recordCfg crcI crcC dcmp) flex t stream) :=
+  readResponse_total_with_records _ source_decoder_is_bounded _ source_record_guards crcI crcC dcmp flex t stream
+
+/-! ### each guard is necessary: the model without it fails on a concrete input (CRC function constantly 0) -/
+
+section Counter
+open KV.RecordScan
+
+def allOn : RCfg := ⟨true, true, true, true, true, true, true⟩
+def z : Bytes → Nat := fun _ => 0
+def nod : Int → Bytes → Option Bytes := fun _ _ => none
+
+def rPanic {α : Type} : RRes α → Bool | .panic => true | _ => false
+def rBalloon {α : Type} : RRes α → Bool | .balloon => true | _ => false
+def rRemain : RRes Int → Option Int | .ok r _ => some r | _ => none
+
+/-- a v2 batch header (61 bytes, no records) with the given numRecords bytes; crc field 0 -/
+def batch (n : Bytes) : Bytes :=
+  [0,0,0,0,0,0,0,0, 0,0,0,49, 0,0,0,0, 2, 0,0,0,0, 0,0, 0,0,0,0, 0,0,0,0,0,0,0,0, 0,0,0,0,0,0,0,0,
+   0,0,0,0,0,0,0,0, 0,0, 0,0,0,0] ++ n
+
+/-- a magic-1 message (34 bytes): null key, null value -/
+def msg1 : Bytes := [0,0,0,0,0,0,0,0, 0,0,0,22, 0,0,0,0, 1,0, 0,0,0,0,0,0,0,0, 255,255,255,255, 255,255,255,255]
+/-- … whose key length (2 → 40) runs past the message into the next one -/
+def msgLongKey : Bytes := [0,0,0,0,0,0,0,0, 0,0,0,24, 0,0,0,0, 1,0, 0,0,0,0,0,0,0,0, 0,0,0,40, 7,7, 255,255,255,255]
+
+/-- D5b: `numRecords = -1` reaches `make([]optimizedRecord, numRecords)` -/
+theorem numRecords_negative_counterexample :
+    rPanic (readSet { allOn with countsBounded := false } z z nod ([0,0,0,61] ++ batch [255,255,255,255]) 65) = true := by decide
+theorem numRecords_huge_counterexample :
+    rBalloon (readSet { allOn with countsBounded := false } z z nod ([0,0,0,61] ++ batch [127,255,255,255]) 65) = true := by decide
+/-- C20-m3: the stream ends 3 bytes into a batch although frame and record-set sizes promise 40 -/
+theorem peek_counterexample :
+    rPanic (readSet { allOn with peekChecked := false } z z nod [0,0,0,40, 1,2,3] 100) = true := by decide
+/-- a negative message size leaves the nested decoder's remain negative: the next read slices out of range -/
+theorem negative_message_size_counterexample :
+    rPanic (readSet { allOn with readGuard := false } z z nod
+      ([0,0,0,34] ++ [0,0,0,0,0,0,0,0, 255,255,255,240] ++ List.replicate 22 0) 38) = true := by decide
+/-- C20-m1: without the `n < limit` test in `writeTo` an over-long key leaves remain negative — a panic unless
+`Read` treats a non-positive remain as end of input (which it does since a30786b: then it is a plain error) -/
+theorem writeTo_counterexample :
+    rPanic (readSet { allOn with writeToGuard := false, readGuard := false } z z nod
+      ([0,0,0,72] ++ msgLongKey ++ msg1 ++ [0,0]) 76) = true := by decide
+/-- C20-m6: a 2-byte stump after the last message is skipped on the stream but not accounted for: the frame decoder
+believes 2 more bytes belong to it than do (with the guard the remaining count is 3, as it must be) -/
+theorem accounting_counterexample :
+    rRemain (readSet { allOn with accountAfterDiscard := false } z z nod ([0,0,0,36] ++ msg1 ++ [0,0] ++ [9,9,9]) 43) = some 5 ∧
+    rRemain (readSet allOn z z nod ([0,0,0,36] ++ msg1 ++ [0,0] ++ [9,9,9]) 43) = some 3 := by decide
+/-- a record set announcing more than the frame has left drives the frame's remain negative -/
+theorem set_size_counterexample :
+    rRemain (readSet { allOn with sizeChecked := false } z z nod ([0,0,0,34] ++ msg1) 10) = some (-28) := by decide
+
+end Counter
 
 /-! ### the unbounded decoder (D5, before the fix) violates the property -/
 
